@@ -248,6 +248,13 @@ Proof.
         [left; right; apply in_app_iff; tauto | left; right; apply in_app_iff; tauto |].
       right. destruct (r_comp (getr s r)); simpl in Hf; [destruct Hf as [<-|[]]; intros; exact I | contradiction].
     + inversion H; subst; clear H. simpl. join_leaf Inv.
+  - (* FOutAdd *)
+    destruct (Nat.ltb n (length (s_nodes s))); [|discriminate]. unfold g_add_out_released in H. inversion H; subst; clear H. simpl.
+    eapply join_transfer; [ | | exact Inv].
+    + intros f Hf. rewrite ?in_app_iff in Hf. destruct Hf as [Hf|[Hf|Hf]]; [left; right; apply in_app_iff; tauto | left; right; apply in_app_iff; tauto |].
+      right. destruct (n_inv (getn (s_nodes s) n)), (is_nil (n_out (getn (s_nodes s) n))); simpl in Hf; repeat (destruct Hf as [<-|Hf]); try contradiction; intros; exact I.
+    + intros jid. jcnt. destruct (n_inv (getn (s_nodes s) n)), (is_nil (n_out (getn (s_nodes s) n))); simpl; lia.
+  - inversion H; subst; clear H. join_leaf Inv.
 Qed.
 
 Lemma exhausted_bend : forall jid f, exhausted f = true -> is_bend jid f = false.
@@ -277,6 +284,10 @@ Proof.
   - simpl in H. destruct (Nat.ltb r (length (s_rrs s))); [|discriminate].
     destruct (r_clock (getr s r)); [discriminate|]. inversion H; subst; clear H. exact Inv.
   - simpl in H. destruct (Nat.eqb (n_timer (getN s n)) 1); [|discriminate]. inversion H; subst; clear H.
+    rewrite frames_spawn. unfold all_frames in *. simpl.
+    eapply join_transfer; [ | | exact Inv]; [|intros jid; rewrite count_app; simpl; lia].
+    intros f Hf. apply in_app_iff in Hf. destruct Hf as [Hf|[<-|[]]]; [left; exact Hf | right; intros; exact I].
+  - simpl in H. destruct (Nat.ltb slot (length (s_slots s))); [|discriminate]. inversion H; subst; clear H.
     rewrite frames_spawn. unfold all_frames in *. simpl.
     eapply join_transfer; [ | | exact Inv]; [|intros jid; rewrite count_app; simpl; lia].
     intros f Hf. apply in_app_iff in Hf. destruct Hf as [Hf|[<-|[]]]; [left; exact Hf | right; intros; exact I].
@@ -546,6 +557,11 @@ Proof.
     + destruct (r_mu (getr s r)); [discriminate|]. injection H as E1 E2 E3; subst s1 st sp. apply jres_nobend; [exact Nb | simpl; lia|].
       intros t Ht. destruct (r_comp (getr s r)); simpl in Ht; [destruct Ht as [<-|[]]; simpl; repeat split; auto; intros; try discriminate; contradiction | contradiction].
     + injection H as E1 E2 E3; subst s1 st sp. apply jres_nobend; [simpl; exact Nb | simpl; lia | exact NoSp].
+  - (* FOutAdd *)
+    destruct (Nat.ltb n (length (s_nodes s))); [|discriminate]. unfold g_add_out_released in H. injection H as E1 E2 E3; subst s1 st sp.
+    apply jres_nobend; [exact Nb | simpl; lia|].
+    intros t Ht. destruct (n_inv (getn (s_nodes s) n)), (is_nil (n_out (getn (s_nodes s) n))); simpl in Ht; repeat (destruct Ht as [<-|Ht]); try contradiction; simpl; repeat split; auto; intros; try discriminate; contradiction.
+  - injection H as E1 E2 E3; subst s1 st sp. apply jres_nobend; [exact Nb | lia | exact NoSp].
 Qed.
 
 Definition jtasks_ok (s : state) : Prop :=
@@ -591,6 +607,9 @@ Proof.
   - simpl in H. destruct (Nat.ltb r (length (s_rrs s))); [|discriminate].
     destruct (r_clock (getr s r)); [discriminate|]. inversion H; subst; clear H. exact Inv.
   - simpl in H. destruct (Nat.eqb (n_timer (getN s n)) 1); [|discriminate]. inversion H; subst; clear H.
+    intros tid st Hin. unfold spawn in Hin. simpl in Hin. apply in_app_iff in Hin. destruct Hin as [Hin|[Q|[]]]; [exact (Inv tid st Hin)|].
+    inversion Q; subst. apply single_j. intros j; discriminate.
+  - simpl in H. destruct (Nat.ltb slot (length (s_slots s))); [|discriminate]. inversion H; subst; clear H.
     intros tid st Hin. unfold spawn in Hin. simpl in Hin. apply in_app_iff in Hin. destruct Hin as [Hin|[Q|[]]]; [exact (Inv tid st Hin)|].
     inversion Q; subst. apply single_j. intros j; discriminate.
 Qed.
@@ -748,6 +767,10 @@ Proof.
     + destruct (r_mu (getr s r)); [discriminate|]. injection H as E1 E2 E3; subst s1 st sp. split; [exact Ur|].
       intros t Ht. destruct (r_comp (getr s r)); simpl in Ht; [destruct Ht as [<-|[]]; apply uw_single; reflexivity | contradiction].
     + injection H as E1 E2 E3; subst s1 st sp. split; [uw_push Ur | exact NoSp].
+  - (* FOutAdd *)
+    destruct (Nat.ltb n (length (s_nodes s))); [|discriminate]. unfold g_add_out_released in H. injection H as E1 E2 E3; subst s1 st sp. split; [exact Ur|].
+    intros t Ht. destruct (n_inv (getn (s_nodes s) n)), (is_nil (n_out (getn (s_nodes s) n))); simpl in Ht; repeat (destruct Ht as [<-|Ht]); try contradiction; apply uw_single; reflexivity.
+  - injection H as E1 E2 E3; subst s1 st sp. split; [exact Ur | exact NoSp].
 Qed.
 
 Definition uwtasks_ok (s : state) : Prop := forall tid st, In (tid, st) (s_tasks s) -> uwshape st.
@@ -782,6 +805,9 @@ Proof.
   - simpl in H. destruct (Nat.ltb r (length (s_rrs s))); [|discriminate].
     destruct (r_clock (getr s r)); [discriminate|]. inversion H; subst; clear H. exact Inv.
   - simpl in H. destruct (Nat.eqb (n_timer (getN s n)) 1); [|discriminate]. inversion H; subst; clear H.
+    intros tid st Hin. unfold spawn in Hin. simpl in Hin. apply in_app_iff in Hin. destruct Hin as [Hin|[Q|[]]]; [exact (Inv tid st Hin)|].
+    inversion Q; subst. apply uw_single. reflexivity.
+  - simpl in H. destruct (Nat.ltb slot (length (s_slots s))); [|discriminate]. inversion H; subst; clear H.
     intros tid st Hin. unfold spawn in Hin. simpl in Hin. apply in_app_iff in Hin. destruct Hin as [Hin|[Q|[]]]; [exact (Inv tid st Hin)|].
     inversion Q; subst. apply uw_single. reflexivity.
 Qed.
